@@ -215,6 +215,30 @@ def pruned_elimination(fi, attrs, defs, call):
     starts from the request and is grown by `R.update(cl)` for cliques meeting it.  -> (closure computed to a fixpoint?, explanation) or None"""
     pots = call.args[0]
     p = defs.single(pots.id) if isinstance(pots, ast.Name) else pots
+    # second spelling: the potentials filtered directly, the connected set grown by sweeps over self.cliques in a stated direction
+    if isinstance(p, ast.ListComp) and len(p.generators) == 1 and U(p.generators[0].iter).replace(' ', '') == 'self.potentials.values()' and len(p.generators[0].ifs) == 1 \
+            and U(p.elt) == U(p.generators[0].target):
+        t_ = p.generators[0].ifs[0]
+        v_ = U(p.generators[0].target)
+        if isinstance(t_, ast.BinOp) and isinstance(t_.op, ast.BitAnd) and isinstance(t_.left, ast.Name) and U(t_.right).replace(' ', '') in (
+                'set(%s.domain.attrs)' % v_, 'set(%s.domain)' % v_):
+            R = t_.left.id
+            grows = [lp for lp in ast.walk(fi.node) if isinstance(lp, ast.For) and any(
+                isinstance(n, ast.Call) and isinstance(n.func, ast.Attribute) and n.func.attr == 'update' and U(n.func.value) == R for n in ast.walk(lp))]
+            seeded = any(isinstance(s_, ast.Assign) and R in [x for t2 in s_.targets for x in target_names(t2)] and attrs in names_in(s_.value) for s_ in ast.walk(fi.node))
+            if len(grows) == 1 and seeded:
+                it = U(grows[0].iter).replace(' ', '')
+                par = getattr(grows[0], '_parent', None)
+                if isinstance(par, ast.While):
+                    return True, 'the sweep over the cliques growing `%s` is repeated until it is stable' % R
+                if it == 'self.cliques[::-1]+self.cliques':
+                    return True, ('`%s` is grown by a sweep TOWARDS the root followed by one AWAY from it (self.cliques is a depth-first preorder of the junction tree: '
+                                  'parents come before their children): every clique connected to the request is reached through their common ancestor' % R)
+                if it == 'self.cliques+self.cliques[::-1]':
+                    return False, ('`%s` is grown by a sweep AWAY from the root and then one back towards it: side branches hanging off the ancestors reached in the '
+                                   'second sweep are never visited again, their potentials are dropped although they are connected to the request' % R)
+                if it == 'self.cliques':
+                    return False, 'the set `%s` is grown by ONE sweep over self.cliques: a clique that only touches attributes added later in the sweep is missed' % R
     if not (isinstance(p, ast.ListComp) and len(p.generators) == 1 and not p.generators[0].ifs and U(p.elt).replace(' ', '') ==
             'self.potentials[%s]' % U(p.generators[0].target)):
         return None
